@@ -48,7 +48,9 @@ def compute_rbf_kernel(x_i: np.ndarray, y_j: np.ndarray, sigma: float) -> np.nda
     Returns:
         np.ndarray: The gaussian kernel matrix.
     """
-    exponent = np.abs(x_i[:, None] - y_j[None, :]) ** 2
+    # Outcome codes of registers wider than 31 qubits overflow int64 when their
+    # difference is squared (and do not fit int64 at all beyond 63 qubits).
+    exponent = np.abs(x_i[:, None].astype(float) - y_j[None, :].astype(float)) ** 2
     try:
         gamma = 1.0 / (2 * sigma)
     except ZeroDivisionError as error:
@@ -75,7 +77,9 @@ def compute_multi_rbf_kernel(
     Returns:
         np.ndarray: The gaussian kernel matrix.
     """
-    exponent = np.abs(x_i[:, None] - y_j[None, :]) ** 2
+    # Outcome codes of registers wider than 31 qubits overflow int64 when their
+    # difference is squared (and do not fit int64 at all beyond 63 qubits).
+    exponent = np.abs(x_i[:, None].astype(float) - y_j[None, :].astype(float)) ** 2
     kernel_matrix = np.zeros(exponent.shape)
     for sigma in sigmas:
         try:
